@@ -97,8 +97,14 @@ def showOutcome (r : Req) : Outcome → String
 
 /-- the configuration as `list` shows it, on one token -/
 def showCfg (s : State) : String :=
-  let rows := (listServices s).map fun r =>
-    s!"{encB r.name}|{encB r.host}|{encB r.path}|{encB r.target}|{showBool r.tls}|{pauseName r.state}"
+  let rows := s.svcs.map fun v =>
+    let h := joinComma v.opts.hosts
+    let ro := match v.rollout with | some ts => encB (joinComma ts) | none => "-"
+    let sp := match v.split with
+      | some sp => s!"{sp.percent}:{",".intercalate (sp.allowlist.map encB)}"
+      | none => "-"
+    s!"{encB v.name}|{encB (if h.isEmpty then [cStar] else h)}|{encB (joinComma v.opts.prefixes)}|{encB (joinComma v.active)}|" ++
+    s!"{showBool v.opts.tlsEnabled}|{pauseName v.pause.st}|ro={ro}|split={sp}|hc={encB v.topts.hcPath}"
   "[" ++ ";".intercalate (sortStrs rows) ++ "]"
 
 /-- the configuration a fresh process restores from this state's file -/
